@@ -26,6 +26,9 @@ def run(ctx, chk):
     n = DR.per_byte(chk, "C14", prog, eff, {"read", "claim-before-read"})
     chk.floor("C14.read", "per-byte obligations", n, 700)
     DR.size_only_feeds_claims(chk, "C14.prefix", prog)
+    chk.rule("C14.payload-copy", "the tree builder reads exactly the claimed payload bytes: nothing of what follows the item")
+    npc = DR.payload_reads(chk, "C14.payload-copy", prog, eff, O.PathCache(prog, eff))
+    chk.floor("C14.payload-copy", "payload reads in the string builders", npc, 2)
 
     f = prog.fn("cbor_load")
     where = "%s:%d" % (f.file, f.line)
